@@ -31,8 +31,7 @@ def install(instr, H, probes, iter_hooks):
             return orig_qr(*a, **kw)
         instr._patch(dc, 'qr_rank', qr_rank)
     if 'c16' in probes:
-        from . import model_oracles as MO
-        iter_hooks.append(MO.hook_identities)
+        _install_c16(instr, H)
 
 
 # ---------------------------------------------------------------------------------------------------------------
@@ -229,8 +228,13 @@ def check_trsbox(H, xopt, g, Hm, sl, su, delta, out):
             t = min(tmax, ss / sHs)
         qc = float(-t * ss + 0.5 * t * t * sHs)
     xinf = float(np.max(np.abs(xopt))) if n else 0.0
+    absH = np.abs(Hm)
+    absd = np.abs(d)
+    # tolerance = relative slack + forward rounding error of evaluating q(d) (terms before cancellation) + effect of rounding d to the
+    # grid of xopt + the routine's own step-length floor (multipliers <= 1e-30 are refused by design, forgoing <= 1e-30*|s|^2)
     tau = 1e-10 * max(abs(float(np.dot(g, d))), abs(0.5 * float(np.dot(d, Hd))), abs(qc)) \
-        + 8 * EPS * xinf * (float(np.sum(np.abs(g))) + float(np.sum(np.abs(Hd)))) + 1e-20 * float(np.linalg.norm(g)) * delta
+        + 64 * EPS * (float(np.dot(np.abs(g), absd)) + 0.5 * float(np.dot(absd, absH.dot(absd)))) \
+        + 8 * EPS * xinf * (float(np.sum(np.abs(g))) + float(np.sum(np.abs(Hd)))) + 1e-20 * float(np.linalg.norm(g)) * delta + 1e-30 * ss
     if not np.isfinite(q) or not np.isfinite(tau):
         H.count('c12.skipped_overflow')
         return
@@ -239,7 +243,8 @@ def check_trsbox(H, xopt, g, Hm, sl, su, delta, out):
     if q > qc + tau:
         H.flag_insitu('C12', 'less_than_cauchy', site, 'q(d)=%.6e > q(cauchy)=%.6e + %.1e' % (q, qc, tau))
     gerr = float(np.linalg.norm(gnew - (g + Hd)))
-    gtol = 1e-8 * (float(np.linalg.norm(g)) + float(np.linalg.norm(Hd))) + 8 * EPS * float(np.linalg.norm(Hm)) * float(np.linalg.norm(xopt))
+    gtol = 1e-8 * (float(np.linalg.norm(g)) + float(np.linalg.norm(Hd))) + 8 * EPS * float(np.linalg.norm(Hm)) * float(np.linalg.norm(xopt)) \
+        + 8 * n * EPS * float(np.linalg.norm(absH.dot(absd)))      # rounding of H.d itself (cancellation among its terms)
     H.c12_max = max(getattr(H, 'c12_max', 0.0), gerr / gtol if gtol > 0 else 0.0)
     if gerr > gtol and np.isfinite(gerr):
         H.flag_insitu('C12', 'gnew', site, '||gnew-(g+Hd)||=%.3e > %.3e' % (gerr, gtol))
@@ -433,3 +438,35 @@ def check_dirs(H, name, caller, num_pts, delta, lo, hi, D):
         two_delta = abs(worst - 2.0) <= 1e-12 and name == 'random_orthog_directions_within_bounds' and active and num_pts > n
         H.flag_insitu('C14', 'dirs_too_long_active_extra' if two_delta else 'dirs_too_long', site,
                       'max ||d||/delta = %.6g (num_pts=%d, n=%d)' % (worst, num_pts, n))
+
+
+# ---------------------------------------------------------------------------------------------------------------
+# C16 in situ: identities after every fit the solver performs (histories = the solver's own: base shifts, geometry
+# steps, restarts, regression)
+# ---------------------------------------------------------------------------------------------------------------
+
+class _LiveState(object):
+    def __init__(self, model):
+        self.model = model
+        self.nops = 0
+        self.lam = None
+
+
+def _install_c16(instr, H):
+    import dfols.model as dm
+    from . import model_machine as MM
+    cur = dm.Model.__dict__['interpolate_mini_models_svd']
+
+    def interp(self_, *a, **kw):
+        out = cur(self_, *a, **kw)
+        try:
+            if out[0] and not kw.get('make_full_rank', a[1] if len(a) > 1 else False):
+                st = _LiveState(self_)
+                if MM._all_finite(st):
+                    H.count('c16.fits_checked')
+                    for v in MM.check_fit(st, 'solve:interpolate') + MM.check_lagrange(st, 'solve:interpolate'):
+                        H.flag_insitu(v['prop'], v['clause'], v['site'], v['detail'])
+        except Exception as e:
+            H.log_anomalies.append(('probe-error', 'c16', repr(e)))
+        return out
+    instr._patch(dm.Model, 'interpolate_mini_models_svd', interp)
